@@ -71,6 +71,26 @@ func c15Gate(e *Env, s *Sched) {
 		s.Counter = f
 		return true
 	}
+	// slots left, by role: an int accumulator of a loop in a repository function that
+	// starts from the limit (C15.count-table checks that it goes down by one exactly per running node)
+	isSlotsLeft := func(v ssa.Value) bool {
+		ph, ok := ir.Resolve(v).(*ssa.Phi)
+		if !ok || ph.Type().String() != "int" || !e.P.Funcs[ph.Parent()] {
+			return false
+		}
+		for _, l := range ir.Loops(ph.Parent()) {
+			if l.Header != ph.Block() {
+				continue
+			}
+			for k, ed := range ph.Edges {
+				if !l.Blocks[l.Header.Preds[k]] && isMax(ed) {
+					s.Counter, s.CountDown = ph.Parent(), true
+					return true
+				}
+			}
+		}
+		return false
+	}
 	ff := e.Facts(s.GateFn)
 	allOK := true
 	var facts []string
@@ -106,6 +126,12 @@ func c15Gate(e *Env, s *Sched) {
 			// count < max
 			if l.Op == token.LSS && isMax(l.Y) && isCount(l.X) {
 				good = true
+			}
+			// the same test counted the other way round: slots left = max − running, 0 < left
+			if (l.Op == token.LSS || l.Op == token.LEQ) && isSlotsLeft(l.Y) {
+				if k, ok := ir.ConstInt(l.X); ok && ((l.Op == token.LSS && k == 0) || (l.Op == token.LEQ && k == 1)) {
+					good = true
+				}
 			}
 		}
 		facts = append(facts, "disjunct: {"+strings.Join(e.RenderN(lits), " ; ")+"}")
@@ -176,7 +202,11 @@ func c15CountTable(e *Env, s *Sched) {
 				return
 			}
 		case *ssa.BinOp:
-			if x.Op == token.ADD && x.X == ssa.Value(acc) {
+			stepOp := token.ADD
+			if s.CountDown {
+				stepOp = token.SUB
+			}
+			if x.Op == stepOp && x.X == ssa.Value(acc) {
 				if c, ok := ir.ConstInt(x.Y); ok && c == 1 {
 					// the increment's own block conditions
 					ls := e.DCSBlock(x.Block())
@@ -191,7 +221,11 @@ func c15CountTable(e *Env, s *Sched) {
 	}
 	for k, ed := range acc.Edges {
 		if !l.Blocks[l.Header.Preds[k]] {
-			if c, ok := ir.ConstInt(ed); !ok || c != 0 {
+			if s.CountDown {
+				if !e.IsFieldRead(ed, nil, e.schedFields().MaxActive) {
+					r.Bad("runningCount: counter starts at 0", e.Pos(fn.Pos()), "the slots-left counter does not start from the limit: "+e.C.Render(ed))
+				}
+			} else if c, ok := ir.ConstInt(ed); !ok || c != 0 {
 				r.Bad("runningCount: counter starts at 0", e.Pos(fn.Pos()), "initial value "+e.C.Render(ed))
 			}
 			continue
@@ -202,6 +236,24 @@ func c15CountTable(e *Env, s *Sched) {
 	for _, b := range fn.Blocks {
 		for _, in := range b.Instrs {
 			if rt, ok := in.(*ssa.Return); ok && e.Facts(fn).Reachable(b) {
+				if s.CountDown {
+					// slots left: the answer is `0 < left` after the complete walk; a constant answer
+					// before the walk is the limit-disabled case the gate rule judges
+					rv := ir.Resolve(rt.Results[0])
+					if _, isC := ir.ConstBool(rv); isC && !l.Blocks[b] && !onlyViaLoopExit(fn, l, b) {
+						continue
+					}
+					n := ir.Normalize(ir.Lit{Cond: rt.Results[0], Pol: true})
+					okCmp := false
+					if n.Kind == "cmp" && ir.Resolve(n.Y) == ssa.Value(acc) {
+						if k, isK := ir.ConstInt(n.X); isK && ((n.Op == token.LSS && k == 0) || (n.Op == token.LEQ && k == 1)) {
+							okCmp = true
+						}
+					}
+					r.Check(okCmp && !l.Blocks[b] && onlyViaLoopExit(fn, l, b), "runningCount: returns the accumulator after the loop is exhausted", e.InstrPos(rt),
+						"the function does not answer from the completed count of slots left")
+					continue
+				}
 				r.Check(ir.Resolve(rt.Results[0]) == ssa.Value(acc) && !l.Blocks[b] && onlyViaLoopExit(fn, l, b), "runningCount: returns the accumulator after the loop is exhausted", e.InstrPos(rt),
 					"the function does not return the completed count (early exit from the counting loop?)")
 			}
